@@ -6,6 +6,7 @@ pub mod c06;
 pub mod c07;
 pub mod c08;
 pub mod c16;
+pub mod lsp_tiers;
 
 use crate::runner::{load_replay, run_replay_tier, Ctx, Outcome};
 use serde_json::Value;
